@@ -51,14 +51,10 @@ func vpSymConstrs(M, K, W, CW int, shapes int) ([]vpConstr, []Constr) {
 		shape := zzvp.Choose("shape", shapes) // 0 clause, 1 cardinality (nil coeffs), 2 PB
 		soft := zzvp.Choose("soft", 2) == 1
 		c := vpConstr{}
-		used := map[int]bool{}
+		// distinct variables: k consecutive names starting at a chosen one
+		start := zzvp.Choose("var", len(vpNames))
 		for i := 0; i < k; i++ {
-			v := zzvp.Choose("var", len(vpNames))
-			if used[v] {
-				zzvp.Assume(false) // each variable at most once per constraint
-			}
-			used[v] = true
-			c.vars = append(c.vars, v)
+			c.vars = append(c.vars, (start+i)%len(vpNames))
 			c.neg = append(c.neg, zzvp.Bool("neg"))
 		}
 		c.atLeast = 1
